@@ -257,7 +257,7 @@ Proof.
   destruct (if (n_next_peers n3 <=? now)%Z then _ else _) as [n4 fx4]. cbn [fst] in *.
   pose proof (reconnect_step_nonew salts now n4) as N5. destruct (reconnect_step salts now n4) as [n5 fx5]. cbn [fst] in *.
   intros a H.
-  assert (H5 : ahas (n_peers n5) a = true) by (destruct (n_next_own_reset n5 <=? now)%Z; exact H).
+  assert (H5 : ahas (n_peers n5) a = true) by (destruct (negb (c_hkfault (n_cfg n5)) && (n_next_own_reset n5 <=? now)%Z); exact H).
   apply H1. change (n_peers n1) with (n_peers n2). apply N3, H4, N5, H5.
 Qed.
 
